@@ -33,6 +33,7 @@ type e3Shape struct {
 	Prompt   bool   // has prompt
 	Silent   string // "" | task | cmd | taskfile : where silent: true is put (dry runs must not execute silenced commands)
 	NCmds    int
+	IgnoreC1 bool   // the first command carries ignore_error: true (a cancelled command is not an ignorable failure)
 	TaskName string // CLI name of the task under test
 	TaskVar  string // NAME=value passed with the task under test ("" = none)
 	OtherVar string // NAME=value passed with the other task
@@ -82,6 +83,9 @@ func (s e3Shape) render() map[string]string {
 			fmt.Fprintf(&c, "      - cmd: %s\n", yamlq(cmd))
 			if s.Silent == "cmd" && name == "tut" {
 				c.WriteString("        silent: true\n")
+			}
+			if s.IgnoreC1 && name == "tut" && k == 1 {
+				c.WriteString("        ignore_error: true\n")
 			}
 		}
 		return c.String()
@@ -944,8 +948,17 @@ func e3RandomShape(rng *rand.Rand) e3Shape {
 		NCmds:  2 + rng.Intn(3),
 		Silent: []string{"", "", "", "task", "cmd"}[rng.Intn(5)],
 	}
+	s.IgnoreC1 = rng.Intn(6) == 0
 	s.fixNames()
 	return s
+}
+
+// failK picks the command that is made to fail (never one whose failure is ignored: an ignored failure is a success)
+func (s e3Shape) failK(rng *rand.Rand) int {
+	if s.IgnoreC1 && s.NCmds >= 2 {
+		return 2 + rng.Intn(s.NCmds-1)
+	}
+	return 1 + rng.Intn(s.NCmds)
 }
 
 func (s e3Shape) withVar(args ...string) []string {
@@ -1031,9 +1044,9 @@ func e3RandomHistory(rng *rand.Rand, s e3Shape, prop string, n int) []e3Op {
 		case r < pFile+pRO+pBad:
 			switch rng.Intn(6) {
 			case 5:
-				ops = append(ops, e3Op{Kind: "run-force-fail", K: 1 + rng.Intn(s.NCmds)})
+				ops = append(ops, e3Op{Kind: "run-force-fail", K: s.failK(rng)})
 			case 0:
-				ops = append(ops, e3Op{Kind: "run-fail", K: 1 + rng.Intn(s.NCmds)})
+				ops = append(ops, e3Op{Kind: "run-fail", K: s.failK(rng)})
 			case 1:
 				pts := e3KillPoints(s)
 				ops = append(ops, e3Op{Kind: "kill", Arg: pts[rng.Intn(len(pts))]})
@@ -1135,6 +1148,17 @@ func runE3(id string, start time.Time) int {
 						i++
 						jobs = append(jobs, job{s, []e3Op{{Kind: "run"}, {Kind: "edit"}, {Kind: "run-cancel"}, {Kind: "run"}, {Kind: "run"}}, "cancel-enum", i})
 						i++
+						// the cancelled command carries ignore_error: being cancelled is not an ignorable failure
+						si := s
+						si.IgnoreC1 = true
+						jobs = append(jobs, job{si, []e3Op{{Kind: "run"}, {Kind: "run-cancel-force"}, {Kind: "run"}, {Kind: "run"}}, "cancel-enum", i})
+						i++
+						jobs = append(jobs, job{si, []e3Op{{Kind: "run"}, {Kind: "edit"}, {Kind: "run-cancel"}, {Kind: "run"}, {Kind: "run"}}, "cancel-enum", i})
+						i++
+						for _, p := range e3KillPoints(si) {
+							jobs = append(jobs, job{si, []e3Op{{Kind: "run"}, {Kind: "edit"}, {Kind: "kill", Arg: p}, {Kind: "run"}, {Kind: "run"}}, "kill-enum", i})
+							i++
+						}
 						for k := 1; k <= n; k++ {
 							jobs = append(jobs, job{s, []e3Op{{Kind: "run"}, {Kind: "run-force-fail", K: k}, {Kind: "run"}, {Kind: "run"}}, "fail-enum", i})
 							i++
